@@ -1,0 +1,74 @@
+//go:build verif
+
+package internal
+
+// Contracts for tlfu.go and slru.go (property C07: the eviction-policy state stays structurally
+// consistent and within bounds; also used by C02, C06, C08).
+
+// ghost constant fixed by NewTinyLfu: window capacity + protected capacity (conserved by resizing)
+func gh_po_cap0[K comparable, V any](t *TinyLfu[K, V]) uint { panic("ghost") }
+
+// x is tracked by the policy: it lies in one of the three regions
+func sp_tracked[K comparable, V any](t *TinyLfu[K, V], x *Entry[K, V]) bool {
+	return gh_po_in(t.window, x) || gh_po_in(t.slru.probation, x) || gh_po_in(t.slru.protected, x)
+}
+
+func sp_tlfuShape[K comparable, V any](t *TinyLfu[K, V]) bool {
+	return t.window != nil && t.slru != nil && t.slru.probation != nil && t.slru.protected != nil && t.sketch != nil &&
+		t.window.listType == LIST_WINDOW && t.slru.probation.listType == LIST_PROBATION && t.slru.protected.listType == LIST_PROTECTED
+}
+
+func sp_sketchInv(s *CountMinSketch) bool {
+	return sp_wfSketch(s) && s.Additions < s.SampleSize && sp_J(s)
+}
+
+// region capacities: window at least 1, nothing wraps, window + protected conserved
+func sp_capInv[K comparable, V any](t *TinyLfu[K, V]) bool {
+	return t.window.capacity >= 1 && t.window.capacity <= 1<<62 && t.slru.protected.capacity <= 1<<62 &&
+		t.window.capacity+t.slru.protected.capacity == gh_po_cap0(t) && t.capacity <= 1<<62
+}
+
+// every entry outside the three regions is unlinked and carries no region flag
+func sp_untrackedClean[K comparable, V any](t *TinyLfu[K, V]) bool {
+	return all(func(x *Entry[K, V]) bool {
+		return imp(!sp_isRoot(x.flag.Flags) && !sp_tracked(t, x), x.meta.prev == nil && x.meta.next == nil && x.flag.Flags&(2|4|64) == 0)
+	})
+}
+
+func sp_totalInv[K comparable, V any](t *TinyLfu[K, V]) bool {
+	return t.weightedSize == uint(t.window.len+t.slru.probation.len+t.slru.protected.len)
+}
+
+// PolicyInv: the representation invariant of the eviction policy (C07)
+func sp_policyInv[K comparable, V any](t *TinyLfu[K, V]) bool {
+	return sp_tlfuShape(t) && sp_listInv(t.window) && sp_listInv(t.slru.probation) && sp_listInv(t.slru.protected) &&
+		sp_totalInv(t) && sp_untrackedClean(t) && sp_capInv(t)
+}
+
+// nothing about the tracked set, the weights or the sizes changed
+func sp_sameTracked[K comparable, V any](t *TinyLfu[K, V]) bool {
+	return all(func(x *Entry[K, V]) bool {
+		return sp_tracked(t, x) == old(sp_tracked(t, x)) && x.policyWeight == old(x.policyWeight)
+	}) &&
+		t.weightedSize == old(t.weightedSize)
+}
+
+// ---- region moves ----------------------------------------------------------------------------------
+
+// protected overflow is moved to probation
+func (t *TinyLfu[K, V]) spec_demoteFromProtected() {
+	requires("inv", sp_policyInv(t))
+	ensures("inv", sp_policyInv(t))
+	ensures("same", sp_sameTracked(t))
+	ensures("caps", t.window.capacity == old(t.window.capacity) && t.slru.protected.capacity == old(t.slru.protected.capacity))
+	ensures("fits", t.slru.protected.len <= int64(t.slru.protected.capacity))
+	ensures("window_same", all(func(x *Entry[K, V]) bool { return gh_po_in(t.window, x) == old(gh_po_in(t.window, x)) }))
+}
+
+func (t *TinyLfu[K, V]) spec_demoteFromProtected_loop1() {
+	invariant("inv", sp_policyInv(t))
+	invariant("same", sp_sameTracked(t))
+	invariant("caps", t.window.capacity == old(t.window.capacity) && t.slru.protected.capacity == old(t.slru.protected.capacity))
+	invariant("window_same", all(func(x *Entry[K, V]) bool { return gh_po_in(t.window, x) == old(gh_po_in(t.window, x)) }))
+	decreases(t.slru.protected.count)
+}
